@@ -779,6 +779,53 @@ def stage_explore(ctx):
 
 # ------------------------------------------------------------------------------------------
 
+# ------------------------------------------------------------------------------------------
+# source tie: core/math.py as it is written now, translated and proved equal to the model
+
+MATH = "holopy/core/math.py"
+SRC_ITEMS = [
+    dict(file=MATH, qualname="rotation_matrix", name="rotation_matrix_src", rettype="list R",
+         params=[("alpha", "R"), ("beta", "R"), ("gamma", "R"), ("radians", "bool")]),
+    dict(file=MATH, qualname="transform_cartesian_to_spherical", name="cart2sph_src", rettype="list R", params=[("x_y_z", "R3")]),
+    dict(file=MATH, qualname="transform_spherical_to_cartesian", name="sph2cart_src", rettype="list R", params=[("r_theta_phi", "R3")]),
+    dict(file=MATH, qualname="transform_cartesian_to_cylindrical", name="cart2cyl_src", rettype="list R", params=[("x_y_z", "R3")]),
+    dict(file=MATH, qualname="transform_cylindrical_to_cartesian", name="cyl2cart_src", rettype="list R", params=[("rho_phi_z", "R3")]),
+    dict(file=MATH, qualname="transform_cylindrical_to_spherical", name="cyl2sph_src", rettype="list R", params=[("rho_phi_z", "R3")]),
+    dict(file=MATH, qualname="transform_spherical_to_cylindrical", name="sph2cyl_src", rettype="list R", params=[("r_theta_phi", "R3")]),
+]
+for _it in SRC_ITEMS:
+    _it["calls"] = {"mod2pi": ("mod2pi", 1)}
+
+
+def lut_defs(repo):
+    """_transformation_lut as the source text has it: rows (from, to, function name)"""
+    import ast
+    import os
+    from harness.lib.pysrc import Unsupported
+    tree = ast.parse(open(os.path.join(repo, MATH)).read())
+    lut = None
+    for n in tree.body:
+        if isinstance(n, ast.Assign) and len(n.targets) == 1 and getattr(n.targets[0], "id", None) == "_transformation_lut":
+            lut = n.value
+    if not isinstance(lut, ast.Dict):
+        raise Unsupported("_transformation_lut is not a dictionary literal")
+    rows = []
+    for k, v in zip(lut.keys, lut.values):
+        if not (isinstance(k, ast.Constant) and isinstance(v, ast.Dict)):
+            raise Unsupported("_transformation_lut row")
+        for k2, v2 in zip(v.keys, v.values):
+            if not (isinstance(k2, ast.Constant) and isinstance(v2, ast.Name)):
+                raise Unsupported("_transformation_lut entry")
+            rows.append('("%s", "%s", "%s")' % (k.value, k2.value, v2.id))
+    return "Definition lut_src : list (string * string * string) := [%s]%%string.\n" % "; ".join(rows)
+
+
+def stage_srctie(ctx):
+    from harness.lib import srctie
+    ok = srctie.run(ctx, "C19", "From HV Require Import C19.Model C19.Lemmas C19.Props.\n", SRC_ITEMS, lut_defs)
+    ctx.count("srctie:%s" % ("ok" if ok else "broken"))
+
+
 def run(ctx):
     ctx.rule = ("conversion points: dyadic cloud + axes / planes with signed zeros + 2^-30..2^-200 either side of quadrant "
                 "boundaries and of the polar axis + magnitudes 2^-400..2^490 (equal and mixed) + origin, for each of the six "
@@ -796,13 +843,18 @@ def run(ctx):
         "rotate_points keeps mutual distances and norms, any number of points",
         "Scatterers.rotated = rigid map about the centroid (pairwise distances, centroid, member count), any number >= 1 of members; "
         "single member stays; translated shifts the centroid by the vector; RigidCluster = rotation then translation",
-        "Q instance executed = R instance proved about"]
+        "Q instance executed = R instance proved about",
+        "source tie: rotation_matrix, the six transform_* functions and _transformation_lut of core/math.py, translated from the current "
+        "source text on every run, are proved equal to the model; round trips, compositions, ranges, z-y-z form, orthogonality and det = 1 "
+        "restated for the translated source"]
     ctx.clauses_explored = [
         "azimuth reaching exactly 2 pi by rounding (closed upper end) - ranges checked on the implementation's doubles",
         "round trips / compositions / radius on arbitrary (non-dyadic) doubles within 1e-9 (rounding is outside the real-number theorems)",
         "angles at coordinate singularities (x=y=0; origin) where arctan2 is decided by the sign of an IEEE zero: only ranges are checked",
         "nested composites (Scatterers holding Spheres): rigid-motion predicate and model correspondence, no theorem"]
-    ctx.trusted += ["oracle: numpy cos/sin of the three Euler angles (hypothesis c^2+s^2=1 sampled each run; enters rotM as arguments)",
+    ctx.trusted += ["source translator harness/lib/pysrc.py (python floats read as reals, numpy arrays as their generic element, np.cos/sin/sqrt/"
+                    "arctan2 and % (2 pi) mapped to cos/sin/sqrt/atan2/mod2pi of the model)",
+                    "oracle: numpy cos/sin of the three Euler angles (hypothesis c^2+s^2=1 sampled each run; enters rotM as arguments)",
                     "Coq-Interval (interval with i_prec 80) evaluates atan/cos/sin/sqrt/PI of the R model at the sample points",
                     "oracle: numpy arctan2/sqrt/mod inside the conversions are compared against the R model only at sampled dyadic points"]
     ctx.notes.append("find_transformation_function('cartesian','cylindrical') (and the reverse) raises ValueError (inhomogeneous array) when all "
@@ -814,6 +866,7 @@ def run(ctx):
         guarded(ctx, tag, fn, *a)
         ctx.count("wall_s:" + tag, round(time.time() - t0, 1))
     timed("prove", ctx.prove)
+    timed("source-tie", stage_srctie, ctx)
     boot.boot()
     timed("rotation-q", stage_rotation_q, ctx)
     timed("composites", stage_composites, ctx)
@@ -849,6 +902,9 @@ def replay(ctx, data):
         ctx.corr_cases += len(goals)
         for i in bad:
             ctx.disagree("corr:conv:%s->%s:%s" % (a, b, names[i]), data["what"], d)
+    elif kind == "tie":
+        ctx.prove()
+        stage_srctie(ctx)
     else:
         print("replay: re-running the whole check with the recorded seed")
         ctx.seed = data.get("seed", ctx.seed)
